@@ -27,7 +27,7 @@ def _bud(q, t):
 
 
 PROP = "C15"
-CLAIMED = False
+CLAIMED = True
 COQ_MODULES = ["Stats", "C15_Model", "C15_Check", "C15_Proofs"]
 PROPERTY_MODULE = "C15_Property"
 ALLOWED_AXIOMS = []
